@@ -111,6 +111,7 @@ def run_scripts(scripts, tag="ts", timeout=1200):
     except OSError:
         pass
     by_case = {s.case: s for s in scripts}
+    assert len(by_case) == len(scripts), "duplicate case ids"
     res = []
     for line in out.split("\n"):
         if not line.startswith("{"):
@@ -128,8 +129,10 @@ def run_scripts(scripts, tag="ts", timeout=1200):
 #   track = (id, (u, m, o), ((cls, ((oa, f), ...)), ...) sorted by cls, (calls, acc), (hist...))
 
 def norm_track_impl(j):
+    # last component: get_feature_classes() as a getter of its own (the observations are dumped per class
+    # through get_observations)
     return (j["id"], tuple(j["a"]), tuple((c, tuple((o[0], o[1]) for o in v)) for c, v in sorted(j["obs"])),
-            tuple(j["ms"]), tuple(j["h"]))
+            tuple(j["ms"]), tuple(j["h"]), tuple(sorted(j["fc"])))
 
 
 def _opt(v):
@@ -139,7 +142,7 @@ def _opt(v):
 def norm_track_model(v):
     u, m, o, tid, obs, ms, h = v
     return (tid, (u, m, o), tuple(sorted((c, tuple((_opt(a), _opt(f)) for a, f in vec)) for c, vec in obs)),
-            tuple(ms), tuple(h))
+            tuple(ms), tuple(h), tuple(sorted(c for c, _ in obs)))
 
 
 def norm_steps_impl(kind, j):
@@ -545,6 +548,95 @@ def gen_store(tier):
     return out
 
 
+DRAIN = 9       # an observation with this attribute value makes optimize EMPTY the class vector (the key stays)
+BIG_IDS = [255, 256, 257, 511, 65535, 65536, 2 ** 32 + 1, 2 ** 64 - 2]
+
+
+def gen_drained(tier):
+    """tracks holding a class key with ZERO observations (drained by optimize) in source / destination / both:
+    Track::merge with explicit lists, and the store's merges with the implicit list (None / empty) and explicit ones"""
+    out = []
+    k = 0
+    # shapes: list of (class, drained?)
+    SRC = [[(3, True)], [(1, False), (3, True)], [(1, True), (3, True)], [(3, False)]]
+    DST = [[], [(3, True)], [(1, False)], [(1, True), (3, False)]]
+
+    def tsetup(reg, tid, shape):
+        ops = [("TN", reg, tid)]
+        for c, dr in shape:
+            ops.append(("TA", reg, (c, 4, None, None)))
+            if dr:
+                ops.append(("TA", reg, (c, DRAIN, None, None)))
+        return ops
+
+    def ssetup(shape):
+        specs = []
+        for c, dr in shape:
+            specs.append((c, 4, None, None))
+            if dr:
+                specs.append((c, DRAIN, None, None))
+        return specs
+    for S in SRC:
+        for D in DST:
+            for mh in (True, False):
+                for L in ([3], [1, 3], [3, 1], [1], [4], []):
+                    ops = tsetup(0, 10, D) + tsetup(1, 20, S) + [("TM", 0, 1, L, mh)]
+                    out.append(Script("T", "dm%d" % k, ops, enum=True, meta={"family": "Track::merge (drained classes)"}))
+                    k += 1
+                for n in (1, 2, 3):
+                    for L in (None, [], [3], [1, 3]):
+                        for variant in ("MO0", "MO1", "ME", "MN"):
+                            if variant in ("ME", "MN") and n == 1 and tier != "thorough":
+                                continue
+                            ops = [("BA", 1, ssetup(D))]
+                            if variant.startswith("MO"):
+                                ops += [("BA", 2, ssetup(S)), ("MO", 1, 2, L, variant == "MO1", mh)]
+                            else:
+                                ops.append((variant, 1, 2, L, mh, ssetup(S)))
+                            out.append(Script("S", "ds%d" % k, ops, shards=n, enum=True, meta={"family": "TrackStore merges (drained classes)"}))
+                            k += 1
+    # draining add_observation on a stored / free-standing track
+    for D in DST:
+        ops = tsetup(0, 10, D) + [("TA", 0, (3, DRAIN, 1, (1, False)))]
+        out.append(Script("T", "da%d" % k, ops, enum=True, meta={"family": "Track::add_observation (drain)"}))
+        k += 1
+        ops = [("BA", 1, ssetup(D)), ("AD", 1, (3, DRAIN, 1, None))]
+        out.append(Script("S", "da%d" % k, ops, shards=2, enum=True, meta={"family": "TrackStore::add (drain)"}))
+        k += 1
+    return out
+
+
+def gen_big_ids(tier):
+    """the id-routed store operations with ids whose value differs from the value mod 2^8 / 2^16 / 2^32, shard
+    counts 3, 5, 6, 7, 8 (and 2, 4 in thorough)"""
+    out = []
+    k = 0
+    shard_counts = (3, 5, 6, 7, 8) if tier != "thorough" else (2, 3, 4, 5, 6, 7, 8)
+    pairs = [(256, 257), (511, 255), (65536, 65535), (2 ** 32 + 1, 3), (2 ** 64 - 2, 256), (2, 2 ** 32 + 1)]
+    for n in shard_counts:
+        for (dst, src) in pairs:
+            for D, S in (([1], [1]), ([1, 2], [2])):
+                for L in (None, [1]):
+                    for variant in ("MO0", "MO1", "ME", "MN"):
+                        ops = [("BA", dst, store_setup(1, D, True)), ("BA", 7, store_setup(5, [1], False))]
+                        if variant.startswith("MO"):
+                            ops.append(("BA", src, store_setup(2, S, False)))
+                            ops.append(("MO", dst, src, L, variant == "MO1", True))
+                        else:
+                            ops.append((variant, dst, src, L, True, store_setup(2, S, False)))
+                        out.append(Script("S", "bi%d" % k, ops, shards=n, enum=True, meta={"family": "TrackStore merges (large ids)"}))
+                        k += 1
+            for existing in (True, False):
+                for upd in (None, (1, True)):
+                    ops = [("BA", src, store_setup(4, [2], False))]
+                    if existing:
+                        ops.append(("BA", dst, store_setup(1, [1], True)))
+                    ops.append(("AD", dst, (1, 5, 1, upd)))
+                    out.append(Script("S", "bi%d" % k, ops, shards=n, enum=True, meta={"family": "TrackStore::add (large ids)"}))
+                    k += 1
+    return out
+
+
 def replay_cmd(script, plan):
     s = script.with_plan(plan)
     return "printf '%s\\n' '" + s.line() + "' > /tmp/ts_replay.txt && /verif/.cache/target/release/trackstore run --file /tmp/ts_replay.txt"
@@ -597,7 +689,8 @@ def run(chk):
         chk.violation("harness-build", "the correspondence harness does not build against /repo", {"log": out[-4000:]}, found_input=False)
         chk.coverage.update({"evaluations": 0})
         return
-    scripts = gen_track_add(chk.tier) + gen_track_merge(chk.tier) + gen_store(chk.tier)
+    scripts = (gen_track_add(chk.tier) + gen_track_merge(chk.tier) + gen_store(chk.tier)
+               + gen_drained(chk.tier) + gen_big_ids(chk.tier))
     pairs = run_scripts(scripts, tag="c11")
     chk.log("implementation: %d scripts, %d runs (base + one per fault position)" % (len(scripts), len(pairs)))
 
@@ -648,6 +741,8 @@ def run(chk):
                 "classes {1,2,3} x 11 requested class lists incl. empty, permuted, repeated, absent-in-both x history flag x 1- or 2-element "
                 "histories), TrackStore::add (stored / missing id), merge_owned (remove on/off), merge_external, merge_external_noblock+get "
                 "(class list None / empty / present in both, one, neither; degenerate: missing dest, missing source, same id) with 1-3 shards; "
+                "classes DRAINED to zero observations by optimize in source / destination / both (explicit and implicit class lists); ids "
+                "255..2^64-2 with 3, 5, 6, 7, 8 shards; "
                 "each run once without faults and once for EVERY invocation index of apply / attributes-merge / optimize of the operation under "
                 "test. non-trivial = the operation under test fails (injected or natural); distinct by (script, fault position)",
         "samples": [s.line()[:300] for s in (scripts[0], scripts[len(scripts) // 2], scripts[-1])],
